@@ -20,10 +20,12 @@ LOCAL C19Has(e, f) == f \in DOMAIN e
 LOCAL C19Rmod(e) ==
   IF C19Has(e, "fail")
   THEN \/ e.k = "err"                                  \* stream ended: the RNG error is reported
-       \/ (e.k = "ok" /\ Lt(e.v, e.m) /\ e.c <= Len(e.st))  \* or it was never needed
+       \/ (e.k = "ok" /\ Lt(e.v, e.m))                     \* or it was never needed
   ELSE /\ e.k = "ok"
        /\ Lt(e.v, e.m)
        /\ (C19Has(e, "vp") => e.vp = e.bits)
+
+LOCAL C19Take(st, from, n) == FromLE([i \in 1..n |-> IF from + i <= Len(st) THEN st[from + i] ELSE 0])
 
 LOCAL C19Rbits(e) ==
   LET fixed  == e.ty = "fixed"
@@ -33,11 +35,16 @@ LOCAL C19Rbits(e) ==
       panicking == e.form \in {"uint.random_bits"}
   IN IF ~precok THEN e.k = "err" /\ e.e = "PrecisionMismatch"
      ELSE IF ~lenok THEN (IF panicking THEN e.k = "panic" ELSE e.k = "err" /\ e.e = "BitLengthTooLarge")
-     ELSE /\ e.k = "ok"
-          /\ Fits(e.v, ToInt(e.bl))
+     ELSE LET bl  == ToInt(e.bl)
+              nl  == (bl + 63) \div 64
+              par == bl % 64
+              c   == IF bl = 0 THEN 0 ELSE 8 * (nl - 1) + (IF par > 0 /\ par <= 32 THEN 4 ELSE 8)   \* the 4-byte tail rule
+          IN
+          /\ e.k = "ok"
+          /\ Fits(e.v, bl)
+          /\ e.c = c                                              \* documented, platform-independent consumption
+          /\ e.v = Mod2k(C19Take(e.st, 0, c), bl)                 \* little-endian read of the stream, masked
           /\ (C19Has(e, "vp") => (e.vp >= ToInt(e.prec) /\ e.vp < ToInt(e.prec) + 64 /\ e.vp % 64 = 0) \/ (e.prec = Zero /\ e.vp \in {0, 64}))
-
-LOCAL C19Take(st, from, n) == FromLE([i \in 1..n |-> IF from + i <= Len(st) THEN st[from + i] ELSE 0])
 
 LOCAL C19Rand(e) ==
   LET nb == e.bits \div 8
@@ -73,7 +80,7 @@ LOCAL C19Ubits(e) ==
   LET n    == Len(e.outs)
       vals == {e.outs[i] : i \in 1..n}
   IN /\ e.k = "ok"
-     /\ n = 2 ^ e.kb
+     /\ n = 2 ^ e.kb /\ Len(e.cs) = n
      /\ \A i \in 1..n : Fits(e.outs[i], e.bl)
      /\ Cardinality(vals) = n                                       \* the field maps bijectively into the output
      /\ \A i \in 1..n : e.cs[i] = e.cs[1]                           \* consumption does not depend on the bits
